@@ -70,7 +70,7 @@ class Custom(Exception):
 
 
 EXC = {'ValueError': ValueError, 'RuntimeError': RuntimeError, 'Custom': Custom, 'TimeoutError': TimeoutError,
-       'KeyError': KeyError, 'OSError': OSError}
+       'KeyError': KeyError, 'OSError': OSError, 'CancelledError': asyncio.CancelledError}
 
 
 def evclass(key: str):
@@ -239,6 +239,15 @@ class World:
                 except BaseException as ex:  # noqa: BLE001
                     eb = 'raised:' + type(ex).__name__
                 self.rec('bus?', who, hctx, eb)
+            elif k == 'await_tmo':  # ('await_tmo', bus, key, seconds): dispatch a child and await it under the caller's own asyncio.wait_for
+                e = self._disp(who, ('disp', op[1], op[2], 'late'), local, ctxn)
+                if e is not None:
+                    self.rec('await-begin', who, e.name)
+                    try:
+                        await asyncio.wait_for(e, timeout=op[3])
+                        self.rec('await-end', who, e.name, 'same')
+                    except TimeoutError:
+                        self.rec('await-cancelled', who, e.name)
             elif k == 'try_await':  # dispatch + await a child, swallowing whatever the await raises
                 e = self._disp(who, ('disp',) + tuple(op[1:]), local, ctxn)
                 if e is not None:
@@ -253,8 +262,10 @@ class World:
                 try:
                     val = await e.event_result(raise_if_any=op[2], raise_if_none=False)
                     self.rec('accessor', who, e.name, op[2], 'value', repr(val)[:40])
-                except asyncio.CancelledError:
-                    raise
+                except asyncio.CancelledError as ex:
+                    if id(ex) not in self.excs:
+                        raise  # this task is being cancelled
+                    self.rec('accessor', who, e.name, op[2], 'raised', self.exc_name(ex))  # a handler's own CancelledError, re-raised by the accessor
                 except BaseException as ex:
                     self.rec('accessor', who, e.name, op[2], 'raised', self.exc_name(ex))
             else:
